@@ -21,6 +21,23 @@ Proof.
   rewrite frag_boot_cond. unfold reward_of, onp_boot_reward. destruct (bootstraps o); ring.
 Qed.
 
+Lemma frag_clip a lo hi : (onp_clip a lo hi == qclip a lo hi)%Q.
+Proof. reflexivity. Qed.
+
+Lemma frag_rollout_guard k n : onp_rollout_guard k n = (k <? n).
+Proof. reflexivity. Qed.
+
+(* several learn() calls: each one is the rollouts from the carried state, after an env reset when asked for *)
+Lemma learns_cons ak gamma sc st reset rs r :
+  learns ak gamma sc st ((reset, rs) :: r) =
+  let st0 := if reset then col_reset sc st else st in
+  (fst (learns ak gamma sc (fst (rollouts ak gamma sc st0 rs)) r),
+   snd (rollouts ak gamma sc st0 rs) :: snd (learns ak gamma sc (fst (rollouts ak gamma sc st0 rs)) r)).
+Proof.
+  cbn [learns]. destruct (rollouts ak gamma sc (if reset then col_reset sc st else st) rs) as [st1 outs].
+  cbn [fst snd]. destruct (learns ak gamma sc st1 r). reflexivity.
+Qed.
+
 Lemma frag_unscale lo hi x : (onp_unscale lo hi x == unscale lo hi x)%Q.
 Proof. unfold onp_unscale, unscale. ring. Qed.
 
